@@ -1366,10 +1366,13 @@ class NewObjEx(Opcode):
         kwargs = interpreter.stack.pop()
         args = interpreter.stack.pop()
         class_type = interpreter.stack.pop()
+        # Call.keywords is a list of ast.keyword nodes; the popped kwargs is an expression (usually
+        # a dict display), so it is passed as `**kwargs`
+        keywords = [ast.keyword(arg=None, value=kwargs)]
         if isinstance(args, ast.Tuple):
-            call = ast.Call(class_type, list(args.elts), kwargs)
+            call = ast.Call(class_type, list(args.elts), keywords)
         else:
-            call = ast.Call(class_type, [ast.Starred(args)], kwargs)
+            call = ast.Call(class_type, [ast.Starred(args)], keywords)
         var_name = interpreter.new_variable(call)
         interpreter.stack.append(ast.Name(var_name, ast.Load()))
 
